@@ -327,8 +327,27 @@ pub fn gen_pushes(rng: &mut Rng) -> (u8, bool, usize, Vec<u64>) {
   let cap = *rng.pick(&[1usize, 2, 3, 4, 5, 7, 8, 16, 17, 64, 1000]);
   let n = rng.below(60) as usize;
   let mut hs: Vec<u64> = Vec::new();
-  let style = rng.below(6);
+  let style = rng.below(8);
   let base = rng.below(nh);
+  if style >= 6 && depth >= 1 {
+    // "refill": a few cells of an aligned block are flushed first, the complete block comes in a later buffer
+    // (the accumulated BMOC then meets a coarser full cell covering cells it already holds)
+    let dd = 1 + rng.below(2.min(depth as u64)) as u32;
+    let bs = 1u64 << (2 * dd);
+    let cap = (bs as usize) * (1 + rng.below(2) as usize);
+    let nblocks = 1 + rng.below(3);
+    let mut hs: Vec<u64> = Vec::new();
+    for _ in 0..nblocks {
+      let start = (rng.below(nh) / bs) * bs;
+      let npre = 1 + rng.below(bs - 1);
+      for _ in 0..npre { hs.push(start + rng.below(bs)); }
+      // pad with unrelated cells up to a multiple of the capacity so that the prefix is flushed
+      while hs.len() % cap != 0 { hs.push(rng.below(nh)); }
+      for k in 0..bs { hs.push(start + k); }
+      while hs.len() % cap != 0 { hs.push(rng.below(nh)); }
+    }
+    return (depth, rng.bool() || style == 6, cap, hs);
+  }
   while hs.len() < n {
     match style {
       0 => hs.push(rng.below(nh)),                                 // random
